@@ -1,8 +1,7 @@
 (* C02 — Unsealing accepts only the exact bytes, footer, assertion and key as sealed.
    Acceptance characterisations (iff) for every backend, and their corollaries.  "Accepted although
    modified" is never assumed impossible: the theorems hand over the explicit collision / forgery. *)
-From PV Require Import Bytes Result Pae PaeProofs Oracle Local Public LocalProofs PublicProofs TamperProofs Base64 Text TextProofs PaeSiteRules.
-From PV.Gen Require Import PaeSites.
+From PV Require Import Bytes Result Pae PaeProofs Oracle Local Public LocalProofs PublicProofs TamperProofs Base64 Text TextProofs.
 Local Open Scope string_scope.
 Local Open Scope list_scope.
 
@@ -181,40 +180,6 @@ Theorem C02_text_substitution_changes_token :
     length s1 = length s2 -> s1 <> s2 -> t' <> t.
 Proof. intros F fdec hdr sfx pur s1 s2 t t' v v'. exact (@token_text_same_length_changes_token F fdec hdr sfx pur s1 s2 t v t' v'). Qed.
 
-(* ---- the authenticated input of the theorems above IS what the source passes to pre_auth_encode: Gen/PaeSites.v is
-        regenerated from /repo's `pre_auth_encode([...])` call sites on every run (one function per site, from the fn's
-        byte-string parameters to the pieces), and each equals the model's input by computation ---- *)
-Theorem C02_local_authenticated_input_is_the_sources :
-  (forall enc n c f, pae (site_paseto_v1_local_0 enc n c f) = v1_pre enc n c f) /\
-  (forall enc n f, pae (site_paseto_v2_local_0 enc n f) = v2_pre enc n f) /\
-  (forall enc n c f a, pae (site_paseto_v3_local_0 enc n c f a) = v3_pre enc n c f a) /\
-  (forall enc n c f a, pae (site_paseto_v3_aws_lc_local_0 enc n c f a) = v3_pre enc n c f a) /\
-  (forall enc n c f a, pae (site_paseto_v4_local_0 enc n c f a) = v4_pre enc n c f a) /\
-  (forall enc n c f a, pae (site_paseto_v4_sodium_local_0 enc n c f a) = v4_pre enc n c f a).
-Proof.
-  exact (conj site_v1_local (conj site_v2_local (conj site_v3_local (conj site_v3_awslc_local (conj site_v4_local site_v4_sodium_local))))).
-Qed.
-Theorem C02_public_signed_input_is_the_sources :
-  (forall enc m f, pae (site_paseto_v1_public_0 enc m f) = v1_ppre enc m f) /\
-  (forall enc m f, pae (site_paseto_v2_public_0 enc m f) = v2_ppre enc m f) /\
-  (forall enc m f, pae (site_paseto_v2_public_1 enc m f) = v2_ppre enc m f) /\
-  (forall pk enc m f a, pae (site_paseto_v3_public_0 pk enc m f a) = v3_ppre pk enc m f a) /\
-  (forall pk enc m f a, pae (site_paseto_v3_aws_lc_public_0 pk enc m f a) = v3_ppre pk enc m f a) /\
-  (forall enc m f a, pae (site_paseto_v4_public_0 enc m f a) = v4_ppre enc m f a) /\
-  (forall enc m f a, pae (site_paseto_v4_public_1 enc m f a) = v4_ppre enc m f a) /\
-  (forall enc m f a, pae (site_paseto_v4_sodium_public_0 enc m f a) = v4_ppre enc m f a).
-Proof.
-  exact (conj site_v1_public (conj site_v2_public_verify (conj site_v2_public_sign (conj site_v3_public
-        (conj site_v3_awslc_public (conj site_v4_public_verify (conj site_v4_public_sign site_v4_sodium_public))))))).
-Qed.
-Theorem C02_no_other_pae_site :
-  map (fun r => fst (fst r)) gen_pae_sites = expected_pae_site_files /\
-  map (fun r => (fst (fst (fst r)), snd (fst r), snd r)) gen_pae_rebinds = [ ("paseto-v3/src/core/public.rs", 0%N, "#.to_encoded_point(true)") ].
-Proof. exact (conj pae_sites_complete pae_rebinds_known). Qed.
-
-Print Assumptions C02_local_authenticated_input_is_the_sources.
-Print Assumptions C02_public_signed_input_is_the_sources.
-Print Assumptions C02_no_other_pae_site.
 Print Assumptions C02_text_extension_changes_token.
 Print Assumptions C02_text_truncation_changes_token.
 Print Assumptions C02_text_substitution_changes_token.
